@@ -287,6 +287,27 @@ theorem C15_table_vote_needs_proposed (t : Table) (i : Nat) (a : Bool) (e : Entr
   simp [step, hi, hs]
 
 open Bxh.GovTable in
+/-- priority locking pauses at most one proposal, and only one that is open (`proposed`), about the same object and of
+strictly lower priority; every other entry of the table is left as it is -/
+theorem C15_table_lock_only_lower_priority (t : Table) (obj : String) (prio i : Nat) (h : (lockLow t obj prio).2 = some i) :
+    (∃ e, t[i]? = some e ∧ e.obj = obj ∧ e.status = .proposed ∧ e.prio < prio ∧
+      (lockLow t obj prio).1[i]? = some { e with status := .paused }) ∧
+    ∀ j, j ≠ i → (lockLow t obj prio).1[j]? = t[j]? := by
+  unfold lockLow at h ⊢
+  split at h
+  · rename_i k hk
+    simp only at h
+    cases h
+    simp only
+    rcases List.findIdx?_eq_some_iff_getElem.mp hk with ⟨hlt, hp, _⟩
+    simp only [Bool.and_eq_true, beq_iff_eq, decide_eq_true_eq] at hp
+    refine ⟨⟨t[i], by simp [hlt], hp.1.1, hp.1.2, hp.2, ?_⟩, fun j hj => ?_⟩
+    · simp [setAt, List.getElem?_modify, hlt]
+    · have : ¬ i = j := fun e => hj e.symm
+      simp [setAt, List.getElem?_modify, this]
+  · cases h
+
+open Bxh.GovTable in
 /-- non-vacuity and the repaired defect: a freeze (priority 2) is paused by a logout (priority 3), withdrawn while
 paused, then the logout is rejected.  With the repaired `unlockLowPriorityProposal` the withdrawn proposal stays
 rejected; the unrepaired one re-opened it (this is the history the correspondence run found on the real contract). -/
